@@ -164,11 +164,24 @@ func runPropertyFiltered(eng *Engine, prop string, opts solveOpts, only map[stri
 	pr := &propRun{prop: prop, clauses: map[string]*clauseStatus{}}
 	keys := functionsServing(eng, prop)
 	for _, k := range keys {
+		if opts.funcFilter != nil && !opts.funcFilter[k] {
+			continue
+		}
 		o2 := opts
 		if only != nil {
 			o2.only = only
 		}
-		fr := verifyOne(eng, k, o2)
+		var fr *funcResult
+		if opts.cache != nil && only == nil {
+			if c, ok := opts.cache[k]; ok {
+				fr = c
+			} else {
+				fr = verifyOne(eng, k, o2)
+				opts.cache[k] = fr
+			}
+		} else {
+			fr = verifyOne(eng, k, o2)
+		}
 		pr.funcs = append(pr.funcs, fr)
 		broken := fr.Vacuity == "vacuous" || len(fr.Unsupported) > 0
 		for _, o := range fr.Obls {
@@ -203,6 +216,9 @@ func runPropertyFiltered(eng *Engine, prop string, opts solveOpts, only map[stri
 	}
 	// lemmas serving the property
 	for _, lm := range eng.specs.Lemmas {
+		if opts.funcFilter != nil && !opts.funcFilter["lemma:"+lm.Name] {
+			continue
+		}
 		serves := false
 		for _, s := range lm.Serves {
 			if s == prop {
@@ -236,6 +252,7 @@ func runPropertyFiltered(eng *Engine, prop string, opts solveOpts, only map[stri
 func cmdClaim(args []string) {
 	fs := flag.NewFlagSet("claim", flag.ExitOnError)
 	prop := fs.String("p", "", "property id or 'all'")
+	onlyF := fs.String("only", "", "comma-separated function keys: re-claim only these (other clauses of the claim files are kept)")
 	repo := fs.String("repo", envOr("GOVC_REPO", "/repo"), "repository")
 	fs.Parse(args)
 	eng, err := loadEngine(*repo)
@@ -250,12 +267,36 @@ func cmdClaim(args []string) {
 	dir := mkScratch()
 	defer os.RemoveAll(dir)
 	os.MkdirAll(filepath.Join(verifRoot, "claims"), 0o755)
+	cache := map[string]*funcResult{}
+	onlySet := map[string]bool{}
+	for _, f := range strings.Split(*onlyF, ",") {
+		if f = strings.TrimSpace(f); f != "" {
+			onlySet[f] = true
+		}
+	}
 	for _, p := range props {
 		// claim only what discharges comfortably inside the quick budget
-		opts := solveOpts{dir: dir, quickT: 3, slowT: 8, workers: 16, stability: true}
+		opts := solveOpts{dir: dir, quickT: 3, slowT: 8, workers: 16, stability: true, cache: cache}
+		if len(onlySet) > 0 {
+			opts.funcFilter = onlySet
+		}
 		pr := runProperty(eng, p, opts)
 		var cl []string
 		nskip := 0
+		if len(onlySet) > 0 {
+			// keep existing clauses of other functions
+			if old, err := loadClaims(p); err == nil {
+				for _, c := range old.Clauses {
+					fn := c
+					if i := strings.Index(c, "/"); i >= 0 {
+						fn = c[:i]
+					}
+					if !onlySet[fn] {
+						cl = append(cl, c)
+					}
+				}
+			}
+		}
 		for _, name := range pr.order {
 			cs := pr.clauses[name]
 			if cs.Discharged == cs.Instances {
